@@ -405,7 +405,8 @@ def _run_ops_from(phi, xx, ops, theta=1.0):
                       PM.phi_5D_admix_into_5][dest]
             phi = fn(phi, *(f + [xx] * nd))
         elif op[0] == 'int':
-            _, T, nus, M, frozen = op
+            _, T, nus, M, frozen = op[:5]
+            t0 = op[5] if len(op) > 5 else 0.0
             allconst = all(k == 'constant' for (k, _, _) in nus)
 
             def mk(spec):
@@ -413,12 +414,16 @@ def _run_ops_from(phi, xx, ops, theta=1.0):
                 if kind == 'constant':
                     return a
                 if kind == 'linear':
-                    return lambda t, a=a, b=b: a + (b - a) * t / T
-                return lambda t, a=a, b=b: a * (b / a) ** (t / T)
+                    return lambda t, a=a, b=b: a + (b - a) * (t - t0) / T
+                return lambda t, a=a, b=b: a * (b / a) ** ((t - t0) / T)
             vals = [mk(sp) for sp in nus]
             phi = numpy.ascontiguousarray(phi)
+            if t0:
+                kw0 = dict(initial_t=t0)
+            else:
+                kw0 = {}
             if nd == 1:
-                phi = IN.one_pop(phi, xx, T, nu=vals[0], theta0=theta, frozen=frozen[0])
+                phi = IN.one_pop(phi, xx, t0 + T, nu=vals[0], theta0=theta, frozen=frozen[0], **kw0)
             else:
                 kw = {}
                 for i in range(nd):
@@ -428,7 +433,8 @@ def _run_ops_from(phi, xx, ops, theta=1.0):
                         if i != j:
                             kw['m%d%d' % (i + 1, j + 1)] = M[i][j]
                 fn = {2: IN.two_pops, 3: IN.three_pops, 4: IN.four_pops, 5: IN.five_pops}[nd]
-                phi = fn(phi.copy(), xx, T, theta0=theta, **kw)
+                kw.update(kw0)
+                phi = fn(phi.copy(), xx, t0 + T, theta0=theta, **kw)
         elif op[0] == 'reorder':
             phi = numpy.ascontiguousarray(PM.reorder_pops(phi, list(op[1])))
         else:
@@ -878,7 +884,10 @@ def gen_program(rng, maxd, admix=True):
                 M[i][j] = round(rng.uniform(0.2, 3.0), 3)
                 if rng.random() < 0.3:
                     M[j][i] = M[i][j]
-        ops.append(('int', T, nus, M, [False] * nd))
+        # one epoch in four is written in absolute-time style: integrate from initial_t = t0 to t0 + T (no extra random draw: the
+        # programs generated for a seed are the same as without this feature)
+        t0 = round(1.7 * T, 4) if int(round(T * 1e4)) % 4 == 1 else 0.0
+        ops.append(('int', T, nus, M, [False] * nd) + ((t0,) if t0 else ()))
     if rng.random() < 0.6:
         integ()
     nstruct = rng.randint(1, 6)
@@ -977,7 +986,7 @@ def drv_export(tier, shard, ncase):
     d = Driver('C16', 'export.%d' % shard,
                bound='%d random dadi programs per shard (shard 0 also one fixed program per pulse destination among 2-5 populations): phi_1D(nu in {1,1,2,0.5}) then 1-6 of {new population by split or 2-3-way '
                      'admixture, pulse from 1-2 sources (2-D..5-D, every destination), remove_pop, reorder_pops}, each new population/'
-                     'pulse/removal followed by an integration (constant/exponential/linear sizes, random migration), 1-5 populations; '
+                     'pulse/removal followed by an integration (constant/exponential/linear sizes, random migration; one in four from a non-zero initial_t), 1-5 populations; '
                      'Demes.output(Nref in {1000,7310,123.5}, generation_time in {None,25,29.5}) re-imported by Demes.SFS(theta=nu_root) '
                      'at the same pts (14/12/10/8 by dimension) vs the program spectrum: max|diff| <= 1e-7*max, or 2e-3*max when the '
                      'program reorders populations (the re-import integrates the axes in another order: splitting error)' % ncase)
